@@ -169,7 +169,8 @@ def generate(run_seed, mode='seq'):
         plan['sched'] = {
             'mode': 'explore', 'seed': rng.getrandbits(48),
             'mean_gap': rng.choice([5, 50, 500]), 'budget': rng.choice([2, 8, 32, 128]),
-            'bias': 0.0, 'pick': rng.choice(['uniform', 'prio']),
+            'bias': rng.choice([0.0, 0.3, 0.8]), 'probe': rng.choice([0.0, 0.5, 1.0]),
+            'pick': rng.choice(['uniform', 'prio']),
             'prio': [rng.random() for _ in range(nt)],
         }
     return plan
@@ -511,7 +512,8 @@ def judge(plan, result, refs):
         limexp = sp.get('limexp')
         if limexp:
             stats['limexp_seen'].add(limexp)
-        ref_recs, extra = refs.get([cls, limexp, terms, bool(sp.get('np'))])
+        ref_req = [cls, limexp, terms, bool(sp.get('np'))]
+        ref_recs, extra = refs.get(ref_req)
         stats['compared'] += nfed
         detail = None
         if recs != ref_recs:
@@ -530,6 +532,7 @@ def judge(plan, result, refs):
             violations.append({'property': ID, 'kind': detail['kind'], 'cls': cls, 'task': obs[0]['task'],
                                'idx': obs[min(detail['k'], len(obs) - 1)]['idx'], 'instance': name,
                                'diff': 'term %d' % detail['k'], 'detail': detail,
+                               'reference_request': ref_req,
                                'observed': None, 'reference': None})
     from sim.common import short_hash
     stats['shapes'] = {short_hash(list(s)) for s in shapes}
@@ -574,8 +577,23 @@ def determinism_count(tier):
     return 12 if tier == 'quick' else 100
 
 
+_KNOWN = None
+
+
 def stop_on_violation(viols):
-    return False        # keep going: known findings must not mask a new kind of violation
+    """Stop early on a violation that is not a listed known finding (those must not mask new ones)."""
+    global _KNOWN
+    if _KNOWN is None:
+        import json
+        import os
+        try:
+            with open(os.path.join(os.path.dirname(os.path.dirname(os.path.abspath(__file__))),
+                                   'known_findings.json')) as f:
+                _KNOWN = [e for e in json.load(f).get('findings', [])
+                          if e.get('property') == ID and e.get('status', 'open') == 'open']
+        except (OSError, ValueError):
+            _KNOWN = []
+    return any(match_known(v, _KNOWN) is None for v in viols)
 
 
 def violation_class(v):
